@@ -6,7 +6,7 @@ with the regenerated table `Earverif.Gen.C19`.
 -/
 import Earverif.Model.Conversion
 import Earverif.Gen.C19_Tables
-import Earverif.Proofs.C19Real
+import Earverif.Proofs.C19Round
 
 namespace Earverif.Conv
 
@@ -190,23 +190,12 @@ The analytic theorems are proved in `Proofs/C19Real.lean` (same namespace) for a
 elevation constants:
 `az_warp_left_inv`, `az_warp_right_inv`, `el_warp_inv_low`, `el_warp_inv_high`, `el_warp_inv_cart`,
 `mapAzToLinear_left/right`, `mapLinearToAz_zero/one` (warp ends), `polar_range_partial`,
-`polar_cart_polar_in_sector_partial`, `cart_polar_cart_in_sector_partial`, and the azimuths of the eight
-square points (`at2_*`).  Below they are instantiated with the regenerated table. -/
+`polar_cart_polar_in_sector_partial`, `cart_polar_cart_in_sector_partial` (superseded for the table model by the
+full `polar_cart_polar`, `cart_polar_cart`, `polar_range_table` at the end of this file), and the azimuths of the
+eight square points (`at2_*`).  Below they are instantiated with the regenerated table. -/
 
 section real
 open Real
-
-/-- The model over ℝ with the regenerated table. -/
-noncomputable def RP (fuel : Nat) : Params ℝ := Params.ofTable mapping elTop elTopTilde fuel
-
-theorem RP_consts (n : Nat) :
-    (RP n).elTop = 30 ∧ (RP n).elTopTilde = 45 ∧ (RP n).fuel = n ∧
-    ∀ r ∈ (RP n).rows, -180 ≤ r.az ∧ r.az ≤ 180 := by
-  refine ⟨by simp [RP, Params.ofTable, elTop, k, Scalar.ofRat],
-          by simp [RP, Params.ofTable, elTopTilde, k, Scalar.ofRat], rfl, ?_⟩
-  intro r hr
-  simp [RP, Params.ofTable, mapping, k, Scalar.ofRat] at hr
-  rcases hr with rfl | rfl | rfl | rfl | rfl <;> norm_num
 
 /-- **polar_range** (partial) for the regenerated table: whatever `point_cart_to_polar` returns has azimuth
 in `[-180, 180)` and `|elevation| ≤ 90`; the distance is `≥ 0` on the two on-axis branches and in the high
@@ -257,54 +246,7 @@ theorem corners_exact_az (l r : ℝ) (hr0 : r - (l + r) / 2 ≠ 0) (hr : |r - (l
   ⟨mapAzToLinear_left l r hr0 hr, mapAzToLinear_right l r hr0 hr, mapLinearToAz_zero l r hr,
    mapLinearToAz_one l r hr⟩
 
-/-- `octAz` is the azimuth the model computes (`cartAz`, i.e. `-degrees(atan2(x, y))`) for the eight square
-points: ties the rational table check `sector_boundaries_match` to `_find_cart_sector`'s sector ends. -/
-theorem cartAz_octant :
-    cartAz (0:ℝ) 1 = 0 ∧ cartAz (1:ℝ) 1 = -45 ∧ cartAz (1:ℝ) 0 = -90 ∧ cartAz (1:ℝ) (-1) = -135 ∧
-    cartAz (0:ℝ) (-1) = -180 ∧ cartAz (-1:ℝ) (-1) = 135 ∧ cartAz (-1:ℝ) 0 = 90 ∧ cartAz (-1:ℝ) 1 = 45 := by
-  have hp : π ≠ 0 := pi_ne_zero
-  refine ⟨?_, ?_, ?_, ?_, ?_, ?_, ?_, ?_⟩ <;> rw [cartAz_real]
-  · rw [at2_zero_one]; simp
-  · rw [at2_one_one]; field_simp; ring
-  · rw [at2_one_zero]; field_simp; ring
-  · rw [at2_one_neg_one]; field_simp; ring
-  · rw [at2_zero_neg_one]; field_simp
-  · rw [at2_neg_one_neg_one]; field_simp; ring
-  · rw [at2_neg_one_zero]; field_simp; ring
-  · rw [at2_neg_one_one]; field_simp; ring
-
 /-! ### Evaluating the loops and the sector lookup on the table -/
-
-theorem downGe_id (x y : ℝ) (n : Nat) (h : y < x + 360) : downGe x n y = y := by
-  cases n with
-  | zero => rfl
-  | succ n => rw [downGe_succ, if_neg (by linarith)]
-
-theorem upLt_id (x y : ℝ) (n : Nat) (h : x ≤ y) : upLt x n y = y := by
-  cases n with
-  | zero => rfl
-  | succ n => rw [upLt_succ, if_neg (by linarith)]
-
-theorem downGt_id (x y : ℝ) (n : Nat) (h : y ≤ x + 360) : downGt x n y = y := by
-  cases n with
-  | zero => rfl
-  | succ n =>
-    have : downGt x (n + 1) y = if x < y - 360 then downGt x n (y - 360) else y := by
-      simp [downGt, k, Scalar.ofRat]
-    rw [this, if_neg (by linarith)]
-
-theorem relativeAngle_of_mem (n : Nat) (x y : ℝ) (h1 : x ≤ y) (h2 : y < x + 360) :
-    relativeAngle n x y = y := by
-  unfold relativeAngle
-  rw [downGe_id x y n h2, upLt_id x y n h1]
-
-/-- `inside_angle_range(x, start, end)` when no normalisation step is needed. -/
-theorem insideAngleRange_plain (n : Nat) (x start stop : ℝ) (h1 : start ≤ stop) (h2 : stop ≤ start + 360)
-    (h3 : start ≤ x) (h4 : x < start + 360) :
-    insideAngleRange n x start stop (k 0) = decide (x ≤ stop) := by
-  unfold insideAngleRange
-  simp only [k, Scalar.ofRat, Rat.cast_zero, sub_zero, add_zero]
-  rw [downGt_id start stop n h2, upLt_id start stop n h1, downGe_id start x n h4, upLt_id start x n h3]
 
 /-- **corners_exact** on the full model for one reference direction (through `_find_sector`, `relative_angle`,
 both warps, any fuel): U-030 (az = -30, el = 30) at distance `d` maps exactly to the cube corner `(d, d, d)`,
@@ -360,12 +302,6 @@ example : elToPolar (RP 8) (elToCart (RP 8) 60 (1/2)).1 (elToCart (RP 8) 60 (1/2
 example : elToPolar (RP 8) (elToCart (RP 8) (-10) 1).1 (elToCart (RP 8) (-10) 1).2 = (-10, 1) :=
   el_warp_inv_table 8 (-10) 1 (by norm_num) (by norm_num [abs_lt])
 
-/-- one `+= 360` step -/
-theorem relativeAngle_up (n : Nat) (x y : ℝ) (h1 : x - 360 ≤ y) (h2 : y < x) :
-    relativeAngle (n + 1) x y = y + 360 := by
-  unfold relativeAngle
-  rw [downGe_id x y (n + 1) (by linarith), upLt_succ, if_pos h2, upLt_id x (y + 360) n (by linarith)]
-
 /-- sector 0 of the reference table: left row (0, (0,1)), right row (-30, (1,1)) -/
 noncomputable def sector0 : Sector ℝ := ⟨0, ⟨0, 0, 1, 0⟩, ⟨-30, 1, 1, 0⟩⟩
 
@@ -386,6 +322,252 @@ example :
   · rw [hL]; norm_num [sector0, abs_lt]
   · rw [hA, hL]; norm_num [sector0, abs_lt]
 
+
+/-! ### The full round trips (table-instantiated model)
+
+Built in `Proofs/C19Round.lean` from: both compositions inside one sector (`polar_in_sector`, `cart_in_sector`,
+including the mod-360 bookkeeping `relativeAngle_renorm`), soundness and totality of the two sector lookups on the
+table (`find_polar_sound/total`, `find_cart_sound/total` — the latter from the `atan2` geometry of the five sectors,
+`cone_of_cartAz`), and independence of the sector chosen on shared boundaries (`cart_sector_indep`,
+`polar_sector_indep`). -/
+
+/-- **polar_cart_polar** (full model with the regenerated table, any fuel `≥ 1`, over ℝ): for every polar
+position with azimuth in `[-180, 180]`, `d > 0`, `|el| < 90`, `point_polar_to_cart` succeeds, and unless its image
+falls in the axis guard of `point_cart_to_polar` (`|x|, |y| < 1e-10`; see `polar_cart_polar_of_radius` for the
+condition on the input and `cart_polar_cart_snap` for what happens inside), `point_cart_to_polar` of the image
+returns exactly the original azimuth (`180` is returned as `-180`), elevation and distance.
+Excluded: `d = 0` (azimuth and elevation are lost), `|el| = 90` (azimuth is lost), the guard zone. -/
+theorem polar_cart_polar (m : Nat) (az el d : ℝ) (h1 : -180 ≤ az) (h2 : az ≤ 180) (hd : 0 < d)
+    (hel : |el| < 90) :
+    ∃ x y z i, pointPolarToCart (RP (m + 1)) az el d = some ((x, y, z), i) ∧
+      (¬ (|x| < 1 / 10000000000 ∧ |y| < 1 / 10000000000) →
+        ∃ j, pointCartToPolar (RP (m + 1)) x y z = some ((if az = 180 then -180 else az, el, d), some j)) := by
+  obtain ⟨s, hs⟩ := find_polar_total m az h1 h2
+  obtain ⟨hmem, hin⟩ := find_polar_sound m az s hs
+  have g := good_of_mem hmem
+  obtain ⟨c1, c2, c3, hrt⟩ := polar_in_sector m s g az el d h1 h2 hin hd hel
+  refine ⟨(polarToCartIn (RP (m + 1)) s az el d).1, (polarToCartIn (RP (m + 1)) s az el d).2.1,
+    (polarToCartIn (RP (m + 1)) s az el d).2.2, s.idx, ?_, ?_⟩
+  · rw [pointPolarToCart_eq, hs]; rfl
+  · intro hsnap
+    set x := (polarToCartIn (RP (m + 1)) s az el d).1
+    set y := (polarToCartIn (RP (m + 1)) s az el d).2.1
+    set z := (polarToCartIn (RP (m + 1)) s az el d).2.2
+    have hcone : InCone s x y := ⟨c1, c2, c3⟩
+    have hxy := not_origin_of_inCone hcone
+    obtain ⟨s', hs'⟩ := find_cart_total m x y
+    obtain ⟨hmem', d1, d2, d3⟩ := find_cart_sound m x y hxy s' hs'
+    have hind := cart_sector_indep m (m + 1) s' s hmem' hmem x y z ⟨d1, d2, d3⟩ hcone
+    refine ⟨s'.idx, ?_⟩
+    rw [pointCartToPolar_eq' _ _ _ _ (by rw [snap_iff]; exact hsnap), hs']
+    simp only [Option.map_some]
+    rw [hind, hrt]
+
+/-- **cart_polar_cart** (full model with the regenerated table, any fuel `≥ 1`, over ℝ): for every Cartesian
+point outside the axis guard (`¬(|x| < 1e-10 ∧ |y| < 1e-10)`; any `z`, inside or outside the cube),
+`point_cart_to_polar` succeeds with an azimuth in `[-180, 180)`, and `point_polar_to_cart` of the result returns
+exactly the original point.  (Ranges of elevation and distance: `polar_range_table`.) -/
+theorem cart_polar_cart (m : Nat) (x y z : ℝ) (hsnap : ¬ (|x| < 1 / 10000000000 ∧ |y| < 1 / 10000000000)) :
+    ∃ az el d i j, pointCartToPolar (RP (m + 1)) x y z = some ((az, el, d), some i) ∧
+      (-180 ≤ az ∧ az < 180) ∧
+      pointPolarToCart (RP (m + 1)) az el d = some ((x, y, z), j) := by
+  have hxy : ¬ (x = 0 ∧ y = 0) := by
+    rintro ⟨rfl, rfl⟩; apply hsnap; norm_num
+  obtain ⟨s', hs'⟩ := find_cart_total m x y
+  obtain ⟨hmem', d1, d2, d3⟩ := find_cart_sound m x y hxy s' hs'
+  have g' := good_of_mem hmem'
+  obtain ⟨⟨a1, a2⟩, hin', hrt⟩ := cart_in_sector m s' g' x y z d1 d2 d3
+  set az := (cartToPolarIn (RP (m + 1)) s' x y z).1
+  set el := (cartToPolarIn (RP (m + 1)) s' x y z).2.1
+  set d := (cartToPolarIn (RP (m + 1)) s' x y z).2.2
+  obtain ⟨s, hs⟩ := find_polar_total m az a1 a2.le
+  obtain ⟨hmem, hin⟩ := find_polar_sound m az s hs
+  have g := good_of_mem hmem
+  have hind := polar_sector_indep m (m + 1) s s' hmem hmem' az el d a1 a2.le
+    ((g.inRange_iff m az a1 a2.le).mp hin) ((g'.inRange_iff m az a1 a2.le).mp hin')
+  refine ⟨az, el, d, s'.idx, s.idx, ?_, ⟨a1, a2⟩, ?_⟩
+  · rw [pointCartToPolar_eq' _ _ _ _ (by rw [snap_iff]; exact hsnap), hs']; rfl
+  · rw [pointPolarToCart_eq, hs]
+    simp only [Option.map_some]
+    rw [hind, hrt]
+
+
+/-- **polar_range** for the table model (full; the gains hypothesis of `polar_range_table_partial` is discharged
+by `find_cart_sound`). -/
+theorem polar_range_table (m : Nat) (x y z az el d : ℝ) (i : Option Nat)
+    (h : pointCartToPolar (RP (m + 1)) x y z = some ((az, el, d), i)) :
+    (-180 ≤ az ∧ az < 180) ∧ |el| ≤ 90 ∧ 0 ≤ d := by
+  obtain ⟨ha, he, hd⟩ := polar_range_partial (RP (m + 1)) (by show 1 ≤ m + 1; omega) (RP_consts (m + 1)).2.2.2
+    (RP_el (m + 1)).1 (RP_el (m + 1)).2.1 (RP_el (m + 1)).2.2.1 (RP_el (m + 1)).2.2.2 x y z az el d i h
+  refine ⟨ha, he, hd ?_⟩
+  intro s hs
+  by_cases hxy : x = 0 ∧ y = 0
+  · obtain ⟨rfl, rfl⟩ := hxy
+    rw [gains_real]; simp
+  · exact (find_cart_sound m x y hxy s hs).2.2.2.le
+
+/-- **polar_cart_polar**, excluded zone stated on the input: it suffices that the horizontal radius `r_xy` of the
+image (`d` itself for `|el| ≤ 30`, `d·tan(90° − el_tilde)` above) is at least the `1e-10` of the axis guard. -/
+theorem polar_cart_polar_of_radius (m : Nat) (az el d : ℝ) (h1 : -180 ≤ az) (h2 : az ≤ 180) (hd : 0 < d)
+    (hel : |el| < 90) (hr : 1 / 10000000000 ≤ (elToCart (RP (m + 1)) el d).2) :
+    ∃ x y z i j, pointPolarToCart (RP (m + 1)) az el d = some ((x, y, z), i) ∧
+      pointCartToPolar (RP (m + 1)) x y z = some ((if az = 180 then -180 else az, el, d), some j) := by
+  obtain ⟨x, y, z, i, hp, hback⟩ := polar_cart_polar m az el d h1 h2 hd hel
+  have hsnap : ¬ (|x| < 1 / 10000000000 ∧ |y| < 1 / 10000000000) := by
+    rw [pointPolarToCart_eq] at hp
+    cases hs : findSector (RP (m + 1)) az with
+    | none => rw [hs] at hp; simp at hp
+    | some s =>
+      rw [hs] at hp
+      simp only [Option.map_some, Option.some.injEq, Prod.mk.injEq] at hp
+      obtain ⟨hc, -⟩ := hp
+      have hmem := (find_polar_sound m az s hs).1
+      have hrad := polar_image_radius (RP (m + 1)) s (good_of_mem hmem).hdet az el d
+      rw [hc] at hrad
+      simp only at hrad
+      rintro ⟨hx, hy⟩
+      rcases cone_radius hmem x y with h | h <;> linarith
+  obtain ⟨j, hj⟩ := hback hsnap
+  exact ⟨x, y, z, i, j, hp, hj⟩
+
+/-- What happens inside the excluded zone (`|x|, |y| < 1e-10`, the axis guard of `point_cart_to_polar`): the point
+is snapped to the vertical axis, `(x, y, z) ↦ (0, ±90, |z|) ↦ (0, 0, z)`, or to the origin when also
+`|z| < 1e-10`; the round trip is then off by less than `1e-10` in each coordinate. -/
+theorem cart_polar_cart_snap (m : Nat) (x y z : ℝ) (hs : |x| < 1 / 10000000000 ∧ |y| < 1 / 10000000000) :
+    (1 / 10000000000 ≤ |z| →
+      pointCartToPolar (RP (m + 1)) x y z = some ((0, Conv.sign z * 90, |z|), none) ∧
+      ∃ j, pointPolarToCart (RP (m + 1)) 0 (Conv.sign z * 90) |z| = some ((0, 0, z), j)) ∧
+    (|z| < 1 / 10000000000 →
+      pointCartToPolar (RP (m + 1)) x y z = some ((0, 0, 0), none) ∧
+      ∃ j, pointPolarToCart (RP (m + 1)) 0 0 0 = some ((0, 0, 0), j)) := by
+  obtain ⟨s, hsec⟩ := find_polar_total m 0 (by norm_num) (by norm_num)
+  have hk0 : (k 0 : ℝ) = 0 := by simp [k, Scalar.ofRat]
+  have hk90 : (k 90 : ℝ) = 90 := by simp [k, Scalar.ofRat]
+  constructor
+  · intro hz
+    constructor
+    · rw [pointCartToPolar_eq, if_pos ((snap_iff x y).mpr hs), if_neg (by rw [abs_real, k_eps]; linarith),
+        hk0, hk90, abs_real]
+    · refine ⟨s.idx, ?_⟩
+      rw [pointPolarToCart_eq, hsec]
+      simp only [Option.map_some, polarToCartIn]
+      have hz0 : z ≠ 0 := by intro h; rw [h, abs_zero] at hz; norm_num at hz
+      have hel : elToCart (RP (m + 1)) (Conv.sign z * 90) |z| = (z, 0) := by
+        rw [elToCart_real, (RP_consts (m + 1)).1, (RP_consts (m + 1)).2.1]
+        rcases lt_or_gt_of_ne hz0 with h | h
+        · rw [sign_neg h]
+          have : |(-1:ℝ) * 90| = 90 := by norm_num
+          rw [this, if_pos (by norm_num), sign_neg (by norm_num), abs_of_neg h]
+          norm_num
+        · rw [sign_pos h]
+          have : |(1:ℝ) * 90| = 90 := by norm_num
+          rw [this, if_pos (by norm_num), sign_pos (by norm_num), abs_of_pos h]
+          norm_num
+      rw [hel]; simp
+  · intro hz
+    constructor
+    · rw [pointCartToPolar_eq, if_pos ((snap_iff x y).mpr hs), if_pos (by rw [abs_real, k_eps]; exact hz), hk0]
+    · refine ⟨s.idx, ?_⟩
+      rw [pointPolarToCart_eq, hsec]
+      simp only [Option.map_some, polarToCartIn]
+      have hel : elToCart (RP (m + 1)) 0 0 = (0, 0) := by
+        rw [elToCart_real, (RP_consts (m + 1)).1, (RP_consts (m + 1)).2.1]; norm_num
+      rw [hel]; simp
+
+
+/-- The image of a sector's right-end azimuth (a row of the table) is exactly `r_xy` times that row's square
+point, whatever sector the lookup picks. -/
+theorem polar_row_image (m : Nat) (s : Sector ℝ) (hs : s ∈ sectors (RP (m + 1))) (el d : ℝ) :
+    ∃ j, pointPolarToCart (RP (m + 1)) s.right.az el d =
+      some (((elToCart (RP (m + 1)) el d).2 * s.right.x, (elToCart (RP (m + 1)) el d).2 * s.right.y,
+             (elToCart (RP (m + 1)) el d).1), j) := by
+  have g := good_of_mem hs
+  have h1 : -180 ≤ s.right.az := g.hR1.le
+  have h2 := g.hR2
+  obtain ⟨s', hs'⟩ := find_polar_total m s.right.az h1 h2
+  obtain ⟨hmem', hin'⟩ := find_polar_sound m _ s' hs'
+  have g' := good_of_mem hmem'
+  have hrange : InRange s s.right.az := by
+    unfold InRange; rw [if_neg (lt_irrefl _)]; exact g.hw1.le
+  have hind := polar_sector_indep m (m + 1) s' s hmem' hs s.right.az el d h1 h2
+    ((g'.inRange_iff m _ h1 h2).mp hin') hrange
+  have hf : (RP (m + 1)).fuel = m + 1 := rfl
+  have p1 : azToP (RP (m + 1)) s s.right.az = 1 := by
+    dsimp only [azToP]
+    rw [hf, g.relLeft, g.relAz m _ h1 h2, if_neg (lt_irrefl _)]
+    exact mapAzToLinear_right _ _ g.mid.1 g.mid.2.1
+  refine ⟨s'.idx, ?_⟩
+  rw [pointPolarToCart_eq, hs']
+  simp only [Option.map_some]
+  rw [hind]
+  unfold polarToCartIn
+  rw [p1]; simp
+
+/-- **corners_exact** (full model, all reference directions): every row of the table (by `table_is_reference`
+these are the reference directions 0, ±30, ±110 with their square points; every row is the right end of one
+sector) at elevation 0 / 30 / -30 and distance `d` maps exactly to `d` times the row's square point with
+`z = 0 / d / -d`, i.e. to the cube corner or edge midpoint. -/
+theorem corners_exact_points (m : Nat) (s : Sector ℝ) (hs : s ∈ sectors (RP (m + 1))) (d : ℝ) (hd : 0 < d) :
+    (∃ j, pointPolarToCart (RP (m + 1)) s.right.az 0 d = some ((d * s.right.x, d * s.right.y, 0), j)) ∧
+    (∃ j, pointPolarToCart (RP (m + 1)) s.right.az 30 d = some ((d * s.right.x, d * s.right.y, d), j)) ∧
+    (∃ j, pointPolarToCart (RP (m + 1)) s.right.az (-30) d = some ((d * s.right.x, d * s.right.y, -d), j)) := by
+  obtain ⟨e0, e1, e2, -⟩ := corners_exact_el (m + 1) d hd
+  refine ⟨?_, ?_, ?_⟩
+  · obtain ⟨j, h⟩ := polar_row_image m s hs 0 d; rw [e0] at h; exact ⟨j, h⟩
+  · obtain ⟨j, h⟩ := polar_row_image m s hs 30 d; rw [e1] at h; exact ⟨j, h⟩
+  · obtain ⟨j, h⟩ := polar_row_image m s hs (-30) d; rw [e2] at h; exact ⟨j, h⟩
+
+/-- Straight behind (azimuth ±180) maps to the middle of the back edge: `(0, -r_xy)`. -/
+theorem corner_back (m : Nat) (el d : ℝ) :
+    ∃ j, pointPolarToCart (RP (m + 1)) 180 el d =
+      some ((0, -(elToCart (RP (m + 1)) el d).2, (elToCart (RP (m + 1)) el d).1), j) := by
+  obtain ⟨s', hs'⟩ := find_polar_total m 180 (by norm_num) (by norm_num)
+  obtain ⟨hmem', hin'⟩ := find_polar_sound m _ s' hs'
+  have g' := good_of_mem hmem'
+  have hs2 : sec2 ∈ sectors (RP (m + 1)) := by rw [sectors_RP]; simp
+  have hrange : InRange sec2 180 := by
+    unfold InRange; rw [lrel2]; have : sec2.right.az = 110 := rfl; rw [this]; norm_num
+  have hind := polar_sector_indep m (m + 1) s' sec2 hmem' hs2 180 el d (by norm_num) (by norm_num)
+    ((g'.inRange_iff m _ (by norm_num) (by norm_num)).mp hin') hrange
+  have hf : (RP (m + 1)).fuel = m + 1 := rfl
+  have p : azToP (RP (m + 1)) sec2 180 = 1 / 2 := by
+    dsimp only [azToP]
+    rw [hf, good2.relLeft, lrel2, good2.relAz m 180 (by norm_num) (by norm_num)]
+    have : sec2.right.az = 110 := rfl
+    rw [this, if_neg (by norm_num), mapAzToLinear_real]
+    have e : ((180:ℝ) - (250 + 110) / 2) * (π / 180) = 0 := by norm_num
+    rw [e, tan_zero]
+    norm_num
+    have : at2 (1 / 2) (1 / 2) = π / 4 :=
+      at2_of_polar (r := √2 / 2) (by positivity) (by linarith [pi_pos]) (by linarith [pi_pos])
+        (by rw [cos_pi_div_four]; nlinarith [sqrt2_mul]) (by rw [sin_pi_div_four]; nlinarith [sqrt2_mul])
+    rw [this]; field_simp; norm_num
+  refine ⟨s'.idx, ?_⟩
+  rw [pointPolarToCart_eq, hs']
+  simp only [Option.map_some]
+  rw [hind]
+  unfold polarToCartIn
+  rw [p]
+  have a : sec2.left.x = 1 := rfl
+  have b : sec2.right.x = -1 := rfl
+  have c : sec2.left.y = -1 := rfl
+  have e : sec2.right.y = -1 := rfl
+  rw [a, b, c, e]
+  have x0 : (elToCart (RP (m + 1)) el d).2 * (1 + (-1 - 1) * (1 / 2)) = 0 := by ring
+  have y0 : (elToCart (RP (m + 1)) el d).2 * (-1 + (-1 - -1) * (1 / 2)) = -(elToCart (RP (m + 1)) el d).2 := by ring
+  rw [x0, y0]
+
+
+/-- Non-vacuity: azimuth -170 (sector 2, across the ±180 wrap), elevation 20, distance 1. -/
+example : ∃ x y z i j, pointPolarToCart (RP 8) (-170) 20 1 = some ((x, y, z), i) ∧
+    pointCartToPolar (RP 8) x y z = some ((if (-170:ℝ) = 180 then -180 else -170, 20, 1), some j) :=
+  polar_cart_polar_of_radius 7 (-170) 20 1 (by norm_num) (by norm_num) (by norm_num) (by norm_num [abs_lt])
+    (by rw [elToCart_radius_low 8 20 1 (by norm_num [abs_le])]; norm_num)
+
+/-- Non-vacuity: a point outside the unit cube. -/
+example : ∃ az el d i j, pointCartToPolar (RP 8) (-2) (1/2) 3 = some ((az, el, d), some i) ∧
+    (-180 ≤ az ∧ az < 180) ∧ pointPolarToCart (RP 8) az el d = some ((-2, 1/2, 3), j) :=
+  cart_polar_cart 7 (-2) (1/2) 3 (by norm_num [abs_lt])
 
 end real
 
